@@ -154,4 +154,25 @@ def run(ctx):
             ctx.violation('evaluate(%s)' % expr, 'skoolkit/__init__.py (evaluate)', '#EVAL(%s) gives %s; integer arithmetic gives %s' % (expr, got, want))
         else:
             ctx.ok({'expression': expr, 'value': want})
+    ctx.rule('C17.5-flag-tests', 'a macro flag parameter that is bit-tested (x & 1, x & 2, ...) is never compared for equality with a single-bit constant >= 2 (combined flags would be ignored)', floor=1)
+    nflag = 0
+    for fname, fn in sorted(funcs.items()):
+        bit, eq = {}, {}
+        for n in ast.walk(fn):
+            if isinstance(n, ast.BinOp) and isinstance(n.op, ast.BitAnd) and isinstance(n.left, ast.Name) and isinstance(n.right, ast.Constant) and isinstance(n.right.value, int):
+                bit.setdefault(n.left.id, []).append(n.right.value)
+            if isinstance(n, ast.Compare) and isinstance(n.left, ast.Name) and len(n.ops) == 1 and isinstance(n.ops[0], (ast.Eq, ast.NotEq)) \
+               and isinstance(n.comparators[0], ast.Constant) and isinstance(n.comparators[0].value, int) and not isinstance(n.comparators[0].value, bool):
+                eq.setdefault(n.left.id, []).append((n.comparators[0].value, n.lineno))
+        for v, masks in bit.items():
+            if not all(m > 0 and m & (m - 1) == 0 for m in masks):
+                continue
+            nflag += 1
+            bad = [(c, l) for c, l in eq.get(v, []) if c >= 2 and c & (c - 1) == 0]
+            if bad:
+                ctx.violation('%s %s' % (fname, v), 'skoolkit/skoolmacro.py:%d' % bad[0][1], 'in %s the flag word `%s` is bit-tested with masks %s but compared with == %d: a value with several flags set takes the wrong branch' % (fname, v, sorted(set(masks)), bad[0][0]))
+            else:
+                ctx.ok({'function': fname, 'flag word': v, 'masks': sorted(set(masks))})
+    if nflag < 1:
+        raise FactError('skoolkit/skoolmacro.py: no bit-tested flag parameter found')
     return report.finish(ctx, EXPLANATION)
